@@ -749,6 +749,10 @@ class C03(core.PropertyCheck):
         cases = []
         if tier != "search":
             cases += list(self.exhaustive())
+        else:
+            # the directed search after a broken tie asks for 10x the budget; every document carries its rendered text and
+            # expected tree, so the stream is capped (a quarter of a million documents do not fit in memory)
+            budget = min(budget, 36000)
         g = Gen(rng)
         n_doc = budget // 3 if tier != "search" else budget // 2
         for i in range(budget):
